@@ -385,6 +385,139 @@ def _cross_check(kw, expanded, index_path, c):
     return int(m.group(1)), int(m.group(2))
 
 
+# --------------------------------------------------------------------------- engine P
+
+ERR_LOC_RE = re.compile(r"^error[^\n]*\n\s*--> [^:\n]+:(\d+):\d+", re.M)
+
+
+def engine_p(kw, dump_dir, per_file=800):
+    """rustc's own parser over the (input, output) pairs that sessions dumped: each input and each
+    output sits in a `#[cfg(any())] mod` of its own, which rustc parses completely and then
+    discards. An output rustc rejects although syn accepted it, for an input rustc accepts, is a
+    well-formedness violation that engine N's syn oracle cannot see."""
+    rustc, out = kw["rustc"], kw["out"]
+    d = os.path.join(out, "engine-p")
+    shutil.rmtree(d, ignore_errors=True)
+    os.makedirs(d)
+    t0 = time.time()
+    seen = {}
+    for name in sorted(os.listdir(dump_dir)):
+        for line in open(os.path.join(dump_dir, name)):
+            try:
+                e = json.loads(line)
+            except ValueError:
+                continue
+            seen.setdefault(e["id"], e)
+    entries = [seen[k] for k in sorted(seen)]
+    if not entries:
+        return {"skipped": "no dumped outputs"}, [], 0
+    chunks = [entries[i:i + per_file] for i in range(0, len(entries), per_file)]
+
+    def body(e):
+        inp = (f"#[derive_ex({e['attr']})]\n{e['item']}" if e["mode"] == "attr" else f"#[derive(Ex)]\n{e['item']}")
+        return inp, e["out"]
+
+    def check_chunk(ci):
+        """Returns (bad_inputs, bad_outputs) as lists of (entry, first error line)."""
+        live = list(range(len(chunks[ci])))
+        bad_in, bad_out = [], []
+        for _round in range(60):
+            lines = ["#![allow(warnings)]"]
+            owner = {}
+            for k in live:
+                inp, outp = body(chunks[ci][k])
+                for tag, text in (("i", inp), ("o", outp)):
+                    lines.append("#[cfg(any())]")
+                    lines.append(f"mod {tag}{k} {{")
+                    start = len(lines) + 1
+                    lines.extend(text.split("\n"))
+                    for ln in range(start, len(lines) + 1):
+                        owner[ln] = (tag, k)
+                    lines.append("}")
+            f = os.path.join(d, f"p{ci}.rs")
+            open(f, "w").write("\n".join(lines) + "\n")
+            try:
+                r = subprocess.run([rustc, "--edition", "2021", "--crate-type", "lib", "--emit=metadata",
+                                    "--out-dir", d, f], env={"PATH": "/usr/bin:/bin"}, capture_output=True,
+                                   text=True, timeout=RUSTC_TIMEOUT_S)
+            except subprocess.TimeoutExpired:
+                raise HarnessError(f"engine P: rustc did not finish parsing {f}")
+            if r.returncode == 0:
+                return bad_in, bad_out
+            hits = {}
+            for m in ERR_LOC_RE.finditer(r.stderr):
+                o = owner.get(int(m.group(1)))
+                if o and o not in hits:
+                    hits[o] = r.stderr[m.start():m.start() + 300].splitlines()[0]
+            if not hits:
+                raise HarnessError(f"engine P: rustc failed on {f} without an attributable error:\n{r.stderr[:1500]}")
+            drop = set()
+            for (tag, k), msg in hits.items():
+                (bad_in if tag == "i" else bad_out).append((chunks[ci][k], msg))
+                drop.add(k)
+            live = [k for k in live if k not in drop]
+        raise HarnessError("engine P: too many rounds")
+
+    with concurrent.futures.ThreadPoolExecutor(max_workers=kw["jobs"]) as ex:
+        results = list(ex.map(check_chunk, range(len(chunks))))
+    bad_in = [x for r in results for x in r[0]]
+    bad_in_ids = {e["id"] for e, _ in bad_in}
+    bad_out = [x for r in results for x in r[1] if x[0]["id"] not in bad_in_ids]
+    # known findings are matched per occurrence (so that they cannot mask another cause that
+    # happens to share rustc's message); the rest is grouped by message, one report per group
+    classes = []
+    groups = {}
+    for e, msg in bad_out:
+        disp = (f"#[derive_ex({e['attr']})] {e['item']}" if e["mode"] == "attr" else f"#[derive(Ex)] {e['item']}")
+        kf = next((f for f in kw.get("known", []) if f.get("kind") == "illformed-rustc"
+                   and re.search(f.get("class_regex", "$^"), msg) and re.search(f.get("input_regex", "$^"), disp)), None)
+        key = ("known:" + kf["id"]) if kf else re.sub(r"`[^`]*`", "`_`", msg)
+        groups.setdefault(key, []).append((e, msg, disp))
+    for key, items in sorted(groups.items()):
+        items.sort(key=lambda x: len(x[2]))
+        e, msg, disp = items[0]
+        req = {"mode": e["mode"], "attr": e["attr"], "item": e["item"]}
+        p = os.path.join(kw["replays"], "C16-rustc-illformed-" + hashlib.sha1(disp.encode()).hexdigest()[:12] + ".json")
+        cls = f"illformed for rustc (syn accepts the output, rustc's parser does not): {key}"
+        json.dump({"property": "C16", "class": cls,
+                   "kind": "illformed-rustc", "engine": "P", "detail": msg, "root_seed": kw["seed"], "session_idx": 0,
+                   "original_step": 0, "original_steps_in_session": 1, "minimisation_trials": 0, "reproducible": True,
+                   "input": disp, "output_a": e["out"],
+                   "plan": {"reqs": [req], "steps": [{"req": 0, "thread": "main", "policy": {"kind": "keep"}}]}},
+                  open(p, "w"), indent=1)
+        classes.append({"class": cls, "kind": "illformed-rustc", "occurrences": len(items), "replay": p,
+                        "reproducible": True, "input": disp, "detail": msg,
+                        "known": key[6:] if key.startswith("known:") else None})
+    shutil.rmtree(d, ignore_errors=True)
+    info = {"pairs_parsed": len(entries), "rustc_files": len(chunks),
+            "inputs_rustc_rejects_but_syn_accepts": len(bad_in),
+            "examples_outside_premise": [(f"#[derive_ex({e['attr']})] {e['item']}"[:200], m) for e, m in bad_in[:5]],
+            "outputs_rustc_rejects": len(bad_out), "wall_s": round(time.time() - t0, 1)}
+    return info, classes, len(entries)
+
+
+def replay_p(kw, path):
+    """Replays an engine-P replay file: expand natively, let rustc parse input and output."""
+    rf = json.load(open(path))
+    req = rf["plan"]["reqs"][0]
+    d = os.path.join(kw["out"], "engine-p-replay")
+    shutil.rmtree(d, ignore_errors=True)
+    os.makedirs(d)
+    plan = os.path.join(d, "plan.json")
+    json.dump(rf["plan"], open(plan, "w"))
+    dump = os.path.join(d, "dump.jsonl")
+    subprocess.run([kw["exe"], "exec-plan", "--plan", plan, "--out", os.path.join(d, "log.json"), "--dump", dump],
+                   env={"PATH": "/usr/bin:/bin"}, capture_output=True, text=True)
+    kw2 = dict(kw, jobs=1)
+    os.makedirs(os.path.join(d, "dumpdir"))
+    if os.path.exists(dump):
+        shutil.move(dump, os.path.join(d, "dumpdir", "0.jsonl"))
+    info, classes, _ = engine_p(dict(kw2, replays=d), os.path.join(d, "dumpdir"))
+    print(json.dumps(info, indent=1))
+    shutil.rmtree(d, ignore_errors=True)
+    return bool(classes)
+
+
 # --------------------------------------------------------------------------- engine M
 
 def engine_m(kw, seeds):
@@ -451,6 +584,11 @@ def run_extra(**kw):
             res["engines"]["self_proof"] = info
             res["classes"] += classes
             res["evaluations"] += ev
+            info, classes, ev = engine_p(kw, os.path.join(kw["native_out"], "dump"))
+            res["engines"]["P"] = dict(info, what="rustc's parser (stable, real) over the inputs and outputs of the sweep "
+                                                  "sessions and the first ordinary sessions, each in a cfg'd-out module")
+            res["classes"] += classes
+            res["evaluations"] += ev
             info, classes, ev = engine_r_t(kw, n_inputs=0, chunks=max(16, kw["jobs"]))
             res["engines"]["R-T"] = dict(info, what="corpus and directed seeds only (generated inputs in the thorough tier): "
                                                     "shipped dylib (guard off), real proc_macro bridge, real wrappers, stable "
@@ -463,6 +601,11 @@ def run_extra(**kw):
         else:
             info, classes, ev = self_proof(kw, sessions=256, job_counts=[kw["jobs"], 4, 1])
             res["engines"]["self_proof"] = info
+            res["classes"] += classes
+            res["evaluations"] += ev
+            info, classes, ev = engine_p(kw, os.path.join(kw["native_out"], "dump"))
+            res["engines"]["P"] = dict(info, what="rustc's parser (stable, real) over the inputs and outputs of the sweep "
+                                                  "sessions and the first ordinary sessions, each in a cfg'd-out module")
             res["classes"] += classes
             res["evaluations"] += ev
             info, classes, ev = engine_r_t(kw, n_inputs=16000, chunks=max(16, kw["jobs"]))
